@@ -48,7 +48,7 @@ def _separate(points, minsep=0.6):
     return np.array(out)
 
 
-PATTERN_CLASSES = ["generic", "generic", "symmetric", "planar", "collinear", "near-collinear", "chiral", "single", "rod"]
+PATTERN_CLASSES = ["generic", "generic", "symmetric", "planar", "collinear", "near-collinear", "chiral", "single", "rod", "mirror-pair"]
 
 
 @st.composite
@@ -90,6 +90,19 @@ def pattern(draw, classes=None, max_atoms=6, alphabet=None, min_atoms=1):
         order = list(draw(st.permutations(range(n))))
         pos = pos[order]
         els = [draw(el) for _ in range(n)]
+    elif cls == "mirror-pair":
+        # CH2-like: two atoms of one element related by a mirror plane, the rest asymmetric.  Swapping the pair is an
+        # improper symmetry: there are two candidate numberings of every occurrence and only one can be rotated into place
+        a_, b_ = draw(grid_float(0.5, 1.2)), draw(grid_float(0.5, 1.5))
+        pos = [[0, 0, 0], [a_, b_, 0], [a_, -b_, 0], [draw(grid_float(-1.5, -0.6)), 0, draw(grid_float(0.6, 1.5))],
+               [draw(grid_float(0.5, 1.5)), 0, draw(grid_float(-1.8, -0.8))]]
+        others = draw(st.permutations(["C", "N", "O"]))
+        els = [others[0], "H", "H", others[1], others[2]]
+        n = draw(st.integers(4, 5)) if max_atoms >= 5 else 4
+        pos, els = pos[:n], els[:n]
+        order = list(draw(st.permutations(range(n))))
+        pos = np.array(pos, float)[order]
+        els = [els[i] for i in order]
     elif cls == "near-collinear":
         n = draw(st.integers(max(3, min_atoms), min(4, max(3, max_atoms))))
         ks = sorted(draw(st.sets(st.integers(-4, 4), min_size=n, max_size=n)))
@@ -154,7 +167,7 @@ def pattern(draw, classes=None, max_atoms=6, alphabet=None, min_atoms=1):
     return {"pos": pos.tolist(), "els": list(els), "cls": cls}
 
 
-CELL_CLASSES = ["ortho", "ortho", "tilt", "tilt", "tilt-neg", "tilt-small", "left-handed"]
+CELL_CLASSES = ["ortho", "ortho", "tilt", "tilt", "tilt-neg", "tilt-small", "left-handed", "ortho-permuted"]
 TIGHTNESS = [1.02, 1.1, 1.5, 3.0]
 
 
@@ -165,12 +178,18 @@ def cell_for(draw, min_width, classes=None, tightness=None):
     cls = draw(st.sampled_from(classes or CELL_CLASSES))
     f = draw(st.sampled_from(tightness or TIGHTNESS))
     min_width = max(min_width, 1.0)
-    if cls == "ortho":
+    if cls in ("ortho", "ortho-permuted"):
         fs = [f, draw(st.sampled_from(tightness or TIGHTNESS)), draw(st.sampled_from(tightness or TIGHTNESS))]
         order = draw(st.permutations(range(3)))
         diag = [min_width * fs[order[i]] * (1 + 1e-3) for i in range(3)]
         cell = np.diag(diag)
         signs = "000"
+        if cls == "ortho-permuted":
+            # an orthorhombic box whose vectors are not listed in x, y, z order (right- or left-handed): all angles are 90
+            # degrees but the matrix is not diagonal
+            perm = draw(st.sampled_from([[1, 2, 0], [2, 0, 1], [1, 0, 2], [0, 2, 1]]))
+            cell = cell[perm]
+            signs = "perm"
     else:
         a = 1.0
         b = draw(st.floats(0.7, 1.6))
